@@ -489,7 +489,7 @@ func (x *c12Ctx) runCase(c *Ctx, cs *c12Case) {
 			x.maxErr = 0
 			got := x.decrypt(out, n)
 			vals := c12I64(got)
-			if !c12Eq(got, want[i]) {
+			if !c12Eq(got, want[i]) || math.IsInf(x.maxErr, 1) {
 				// the tie is on "is the result the specified one": the model predicts exactly when it is not
 				vals = "wrong"
 				c.Count("eval:wrong-result")
@@ -500,7 +500,7 @@ func (x *c12Ctx) runCase(c *Ctx, cs *c12Case) {
 				fmt.Fprintf(&sb, " out lvl=%d scale=%s vals=%s", out.Level(), x.scaleStr(out.Scale), vals)
 			}
 			detail := ""
-			if !c12Eq(got, want[i]) {
+			if !c12Eq(got, want[i]) || math.IsInf(x.maxErr, 1) {
 				detail = desc
 			}
 			name := "matvec_" + x.scheme
@@ -550,6 +550,10 @@ func (x *c12Ctx) randDiagSet(c *Ctx, logCols int, kind int) []int {
 		for d := -w; d <= w; d++ {
 			add(d)
 		}
+	case 6: // empty set (boundary)
+		return []int{}
+	case 7: // index outside (-n, n) (malformed)
+		return []int{cols + 1 + c.rng.Intn(3)}
 	case 4: // the test-suite style list
 		for _, d := range []int{-15, -4, -1, 0, 1, 2, 3, 4, 15} {
 			if d > -cols && d < cols {
@@ -695,6 +699,27 @@ func c12Evals(c *Ctx, x *c12Ctx) {
 			cs.outLvl = cs.lts[0].level
 			x.runCase(c, cs)
 		}
+	}
+	// boundary / malformed stream
+	for _, kind := range []int{6, 7} {
+		for _, ratio := range []int{-1, 0, 2} {
+			for _, inplace := range []bool{false, true} {
+				cs := &c12Case{ctLevel: L, ctScale: x.ctScale(c), logCols: x.logMaxC, v: x.randVec(c, x.logMaxC), mode: "single", inplace: inplace, outLvl: L}
+				cs.lts = []*c12LT{x.randLT(c, x.logMaxC, kind, ratio, L)}
+				c.Count(fmt.Sprintf("boundary:kind%d", kind))
+				x.runCase(c, cs)
+			}
+		}
+	}
+	// EvaluateSequential with fewer levels than transformations: must be an error, not a panic
+	{
+		cs := &c12Case{ctLevel: 1, ctScale: x.ctScale(c), logCols: x.logMaxC, v: x.randVec(c, x.logMaxC), mode: "seq"}
+		for i := 0; i < 3; i++ {
+			cs.lts = append(cs.lts, x.randLT(c, x.logMaxC, 3, 1, L))
+		}
+		cs.outLvl = L
+		c.Count("boundary:seq-too-few-levels")
+		x.runCase(c, cs)
 	}
 }
 
